@@ -67,7 +67,7 @@ def collect(ctx, TAG, jobs, suite_desc, driver=None, sample=None, geoms=None, li
             continue
         label = ",".join(feats) or "default"
         fails, summ, notes = sc.run_jobs(ctx, rel, exe, jobs(ctx, rel), feats, label="%s-%s-%s" % (driver, TAG.strip("[]"), vlib.feat_dir(feats)),
-                                         timeout=80 if ctx.quick else 1000)
+                                         timeout=300 if ctx.quick else 2400)
         ctx.notes += notes
         mine = [f for f in fails if f.kind == "ORACLE" and f.tag == TAG]
         other = [f for f in fails if f.kind == "ORACLE" and f.tag != TAG]
